@@ -27,7 +27,7 @@ ASSUME = ['refisa is a faithful transcription of hexb.pdf (validated by selftest
 def run(ctx):
     ctx.rule = RULE
     ctx.assumptions = ASSUME
-    lockstep.run(ctx, 'C02', 'c02', (2500, 150000), (2500, 150000))
+    lockstep.run(ctx, 'C02', 'c02', (6000, 150000), (6000, 150000))
 
 
 def replay(path):
